@@ -259,6 +259,9 @@ def run_case(c):
             q0, q1 = h.rand_charges(rng, m, n, c['style'])
             if c['source'].startswith('entries_'):
                 A = h.masked_matrix(rng, q0, q1, c['source'][8:])
+                if A.dtype.kind in 'iu':
+                    dt = (np.int64, np.int32, np.int16, np.int8, np.bool_)[r % 5]       # integer matrices of every width: double-precision factors
+                    A = (A != 0) if dt is np.bool_ else A.astype(dt)
             else:
                 A = h.matrix_from_block_spectra(rng, q0, q1, make_spectra(rng, q0, q1, c['source']), bool(rng.integers(2)))
             sref = h.block_singular_values(A, q0, q1)
